@@ -112,6 +112,37 @@ def sh(cmd, cwd, timeout, env=None):
     except subprocess.TimeoutExpired:
         return 124, "timeout"
 
+def rerun_missed():
+    seen = {}
+    for pth in (OUT, OUT_CHECKS):
+        if os.path.exists(pth):
+            for l in open(pth):
+                r = json.loads(l)
+                if r["status"] == "missed":
+                    seen[(r["file"], r["line"], r["op"], r["k"])] = r
+    out = os.path.join(HERE, "mutation", "results_rerun.jsonl")
+    for key, m in seen.items():
+        sh(["git", "checkout", "-q", "--", "."], REPO, 60)
+        p = os.path.join(REPO, m["file"])
+        src = open(p).read().split("\n")
+        if src[m["line"] - 1] != m["old"]:
+            print("source moved:", key); continue
+        src[m["line"] - 1] = m["new"]
+        open(p, "w").write("\n".join(src))
+        order = FILES[m["file"]] + [c for c in ALL if c not in FILES[m["file"]]]
+        st, by = "missed", ""
+        for c in order:
+            rc2, out2 = sh(["./check", c, "quick"], VERIF, 2400, {"VERIF_METADATA": os.path.join(REPO, "artifacts/polkadot_metadata.scale"), "VERIF_SEED": "11", "VERIF_HANG_CONFIRM_S": "60"})
+            if rc2 == 1:
+                st, by = "caught", c
+                break
+        sh(["git", "checkout", "-q", "--", "."], REPO, 60)
+        rec = {k: m[k] for k in ("file", "line", "op", "k", "old", "new")}
+        rec["status"] = st; rec["caught_by"] = by
+        open(out, "a").write(json.dumps(rec) + "\n")
+        print("%s:%d %s -> %s %s" % (m["file"], m["line"], m["op"], st, by), flush=True)
+    return 0
+
 def report():
     def load(p):
         d = {}
@@ -160,10 +191,13 @@ def main():
     ap.add_argument("--mode", default="both", choices=["both", "tests", "checks"],
                     help="both: tests, then checks for survivors (results.jsonl). tests / checks: only that half, for two labs running in parallel (results_tests.jsonl / results_checks.jsonl); merge with --report")
     ap.add_argument("--report", action="store_true")
+    ap.add_argument("--rerun-missed", action="store_true", help="run the recorded missed mutants again with the machinery as it is now in LAB (results_rerun.jsonl)")
     ap.add_argument("--only-survivors", action="store_true", help="checks mode: only mutants that results_tests.jsonl records as survives_tests")
     a = ap.parse_args()
     if a.report:
         return report()
+    if a.rerun_missed:
+        return rerun_missed()
     global OUT
     if a.mode == "tests":
         OUT = OUT_TESTS
